@@ -43,9 +43,9 @@ pub fn check_selection_after(input: &[u8], e: u8, pre: Prelude) -> (Vec<(String,
     match pre {
         Prelude::ForcedBefore => {
             for k in [0u8, 7] {
-                let _ = subject::build(input, &Opts { mode: None, ecl: Some(e), version: None, mask: Some(k) });
+                let _ = subject::build(input, &Opts { mode: None, ecl: Some(e), version: None, mask: Some(k), order: 0 });
             }
-            check_selection_with(input, &|| subject::build(input, &Opts { mode: None, ecl: Some(e), version: None, mask: None }))
+            check_selection_with(input, &|| subject::build(input, &Opts { mode: None, ecl: Some(e), version: None, mask: None, order: 0 }))
         }
         Prelude::SameBuilderOtherLevel | Prelude::SameBuilderOtherMode => {
             let b = std::cell::RefCell::new(fast_qr::QRBuilder::new(input.to_vec()));
@@ -111,7 +111,7 @@ pub fn check_selection_with(input: &[u8], build: &dyn Fn() -> Outcome) -> (Vec<(
         let enc: Vec<bool> = g.reg.iter().map(|&x| x == Reg::Data).collect();
         let mut pens = [(0u32, 0u32); 8];
         for k in 0..8usize {
-            let fo = Opts { mask: Some(k as u8), version: Some(v as u8), ecl: q.ecl.map(|e| subject::ecl_idx(e) as u8), mode: q.mode.map(|m| subject::mode_idx(m) as u8) };
+            let fo = Opts { mask: Some(k as u8), version: Some(v as u8), ecl: q.ecl.map(|e| subject::ecl_idx(e) as u8), mode: q.mode.map(|m| subject::mode_idx(m) as u8), order: 0 };
             match subject::build(input, &fo) {
                 Outcome::Ok(qk) if qk.size == n => {
                     let mut vals = subject::values(&qk);
@@ -293,7 +293,7 @@ pub fn run(ctx: &Ctx) -> Collector {
             let (findings, _, digest) = check_selection_after(input, *e, *pre);
             col.eval(digest);
             for (k, w) in findings {
-                let mut cj = case_json(input, &Opts { mode: if *pre == Prelude::SameBuilderOtherMode { Some(2) } else { None }, ecl: Some(*e), version: None, mask: None });
+                let mut cj = case_json(input, &Opts { mode: if *pre == Prelude::SameBuilderOtherMode { Some(2) } else { None }, ecl: Some(*e), version: None, mask: None, order: 0 });
                 cj["kind"] = json!("selection-after");
                 cj["prelude"] = json!(format!("{:?}", pre));
                 col.violation((80, i as u64), format!("C11/{}-after-history", k), format!("after {:?}: {}", pre, w), cj);
